@@ -42,14 +42,14 @@ __CPROVER_assigns(buffer->offset);
 #define PV_LOG_CV(name, kindv, extra_ok) \
 static cJSON_bool name(cJSON * const item, parse_buffer * const input_buffer) \
 __CPROVER_requires(__CPROVER_is_fresh(item, sizeof(cJSON)) && PB_FRESH(input_buffer) && g_pv_calls < KMAX) \
-__CPROVER_ensures(PB_SAME(input_buffer) && input_buffer->depth == __CPROVER_old(input_buffer->depth)) \
+__CPROVER_ensures(PB_SAME(input_buffer) && (RET ? input_buffer->depth == __CPROVER_old(input_buffer->depth) : input_buffer->depth >= __CPROVER_old(input_buffer->depth))) \
 __CPROVER_ensures(RET ==> (input_buffer->offset > __CPROVER_old(input_buffer->offset) && (extra_ok))) \
 __CPROVER_ensures(!RET ==> (item->type == __CPROVER_old(item->type) && item->valuestring == __CPROVER_old(item->valuestring) && item->child == __CPROVER_old(item->child))) \
 __CPROVER_ensures(g_pv_calls == __CPROVER_old(g_pv_calls) + 1 && g_pvl[__CPROVER_old(g_pv_calls)].s == __CPROVER_old(input_buffer->offset) && g_pvl[__CPROVER_old(g_pv_calls)].e == input_buffer->offset && \
-    g_pvl[__CPROVER_old(g_pv_calls)].ok == RET && g_pvl[__CPROVER_old(g_pv_calls)].item == item && g_pvl[__CPROVER_old(g_pv_calls)].depth == input_buffer->depth && \
+    g_pvl[__CPROVER_old(g_pv_calls)].ok == RET && g_pvl[__CPROVER_old(g_pv_calls)].item == item && g_pvl[__CPROVER_old(g_pv_calls)].depth == __CPROVER_old(input_buffer->depth) && \
     g_pvl[__CPROVER_old(g_pv_calls)].str == item->valuestring && g_pvl[__CPROVER_old(g_pv_calls)].kind == (kindv) && (RET == 0 || RET == 1)) \
 __CPROVER_ensures(LIVE_SAME && g_hook_frees == __CPROVER_old(g_hook_frees) && C14_POST(input_buffer->hooks)) \
-__CPROVER_assigns(ITEM_VALUE_FIELDS(item), input_buffer->offset, GHOST_ALLOC, GHOST_STRTOD, g_pvl[g_pv_calls], g_pv_calls);
+__CPROVER_assigns(ITEM_VALUE_FIELDS(item), input_buffer->offset, input_buffer->depth, GHOST_ALLOC, GHOST_STRTOD, g_pvl[g_pv_calls], g_pv_calls);
 PV_LOG_CV(parse_value_cv, D_VALUE, 1)
 PV_LOG_CV(parse_string_cv, D_STRING, (item->type == cJSON_String && __CPROVER_is_fresh(item->valuestring, 1)))
 
@@ -74,7 +74,7 @@ __CPROVER_assigns(GHOST_ALLOC, GHOST_DEL);
 /* ------------------------------------------------------------------ parse_array */
 static cJSON_bool parse_array(cJSON * const item, parse_buffer * const input_buffer)
 __CPROVER_requires(__CPROVER_is_fresh(item, sizeof(cJSON)) && PB_FRESH(input_buffer) && input_buffer->offset < input_buffer->length)
-__CPROVER_requires(g_nit_calls == 0 && g_pv_calls == 0 && g_del_calls == 0 && HOOKS_OK(global_hooks) && g_live == NULL)
+__CPROVER_requires(g_nit_calls == 0 && g_pv_calls == 0 && g_del_calls == 0 && HOOKS_OK(global_hooks) && g_live == NULL && HOOKS_EQ(input_buffer->hooks, global_hooks))
 PARSE_COMMON(item, input_buffer)
 /* nesting limit: refused before anything is allocated or parsed; below the limit every recursive call runs one level deeper (stack bound) */
 __CPROVER_ensures(__CPROVER_old(input_buffer->depth) >= CJSON_NESTING_LIMIT ==> (!RET && g_nit_calls == 0 && g_pv_calls == 0 && input_buffer->offset == __CPROVER_old(input_buffer->offset))) /*@C01 C03*/
@@ -94,8 +94,8 @@ __CPROVER_ensures((RET && g_pv_calls >= 1 && g_k > __CPROVER_old(input_buffer->o
 __CPROVER_ensures((RET && g_pv_calls >= 2 && g_k >= g_pvl[0].e && g_k < g_pvl[1].s) ==> (input_buffer->content[g_k] <= 32 || input_buffer->content[g_k] == ',')) /*@C02 C03*/
 __CPROVER_ensures((RET && g_pv_calls >= 3 && g_k >= g_pvl[1].e && g_k < g_pvl[2].s) ==> (input_buffer->content[g_k] <= 32 || input_buffer->content[g_k] == ',')) /*@C02 C03*/
 __CPROVER_ensures((RET && g_pv_calls >= 2) ==> g_pvl[1].s > g_pvl[0].e) /*@C03*/
-__CPROVER_ensures((RET && g_pv_calls >= 1 && g_pv_calls <= 3 && g_k >= g_pvl[g_pv_calls - 1].e && g_k + 1 < input_buffer->offset) ==> input_buffer->content[g_k] <= 32) /*@C02 C03*/
-__CPROVER_ensures((RET && g_pv_calls == 0 && g_k > __CPROVER_old(input_buffer->offset) && g_k + 1 < input_buffer->offset) ==> input_buffer->content[g_k] <= 32) /*@C02 C03*/
+__CPROVER_ensures((RET && g_pv_calls >= 1 && g_pv_calls <= 3 && g_k >= g_pvl[g_pv_calls - 1].e && g_k < input_buffer->offset - 1) ==> input_buffer->content[g_k] <= 32) /*@C02 C03*/
+__CPROVER_ensures((RET && g_pv_calls == 0 && g_k > __CPROVER_old(input_buffer->offset) && g_k < input_buffer->offset - 1) ==> input_buffer->content[g_k] <= 32) /*@C02 C03*/
 /* failure: the partial chain is deleted exactly once (never on success) */
 __CPROVER_ensures(RET ==> g_del_calls == 0) /*@C07*/
 __CPROVER_ensures((!RET && g_nit_calls >= 1) ==> (g_del_calls == 1 && g_del_arg == g_n0)) /*@C03 C07 C08*/
@@ -108,17 +108,18 @@ __CPROVER_assigns(PARSE_ASSIGNS(item, input_buffer), GHOST_CONT, GHOST_DEL);
     (node)->string == g_pvl[2*(j)].str && (node)->string != NULL)
 static cJSON_bool parse_object(cJSON * const item, parse_buffer * const input_buffer)
 __CPROVER_requires(__CPROVER_is_fresh(item, sizeof(cJSON)) && PB_FRESH(input_buffer))
-__CPROVER_requires(g_nit_calls == 0 && g_pv_calls == 0 && g_del_calls == 0 && HOOKS_OK(global_hooks) && g_live == NULL)
+__CPROVER_requires(g_nit_calls == 0 && g_pv_calls == 0 && g_del_calls == 0 && HOOKS_OK(global_hooks) && g_live == NULL && HOOKS_EQ(input_buffer->hooks, global_hooks))
 PARSE_COMMON(item, input_buffer)
 __CPROVER_ensures(__CPROVER_old(input_buffer->depth) >= CJSON_NESTING_LIMIT ==> (!RET && g_nit_calls == 0 && g_pv_calls == 0 && input_buffer->offset == __CPROVER_old(input_buffer->offset))) /*@C01 C03*/
 __CPROVER_ensures((g_pv_calls >= 2 ==> g_pvl[1].depth == __CPROVER_old(input_buffer->depth) + 1) && (g_pv_calls >= 4 ==> g_pvl[3].depth == __CPROVER_old(input_buffer->depth) + 1)) /*@C01*/
 __CPROVER_ensures(RET ==> (__CPROVER_old(input_buffer->offset) < input_buffer->length && AT0(input_buffer) == '{' && input_buffer->content[input_buffer->offset - 1] == '}' && item->type == cJSON_Object)) /*@C02 C03*/
 /* per member: the key is parsed as a string into the node and becomes its (owned) key, then the value is parsed into the same node; any failure fails the object */
-__CPROVER_ensures(RET ==> (g_pv_calls == 2 * g_nit_calls && (g_nit_calls < 1 || MEMBER_OK(0, g_n0)) && (g_nit_calls < 2 || MEMBER_OK(1, g_n1)))) /*@C02 C03*/
+__CPROVER_ensures(RET ==> (g_pv_calls == 2 * g_nit_calls && (g_nit_calls < 1 || MEMBER_OK(0, g_n0)) && (g_nit_calls < 2 || MEMBER_OK(1, g_n1)) && (g_nit_calls < 3 || MEMBER_OK(2, g_n2)))) /*@C02 C03*/
 __CPROVER_ensures(((g_pv_calls >= 1 && !g_pvl[0].ok) || (g_pv_calls >= 2 && !g_pvl[1].ok) || (g_pv_calls >= 3 && !g_pvl[2].ok) || (g_pv_calls >= 4 && !g_pvl[3].ok)) ==> !RET) /*@C03*/
 __CPROVER_ensures((RET && g_nit_calls == 0) ==> item->child == NULL) /*@C02*/
 __CPROVER_ensures((RET && g_nit_calls == 1) ==> (item->child == g_n0 && NODES_LINKED_1)) /*@C02 C01*/
 __CPROVER_ensures((RET && g_nit_calls == 2) ==> (item->child == g_n0 && NODES_LINKED_2)) /*@C02 C01*/
+__CPROVER_ensures((RET && g_nit_calls == 3) ==> (item->child == g_n0 && NODES_LINKED_3)) /*@C02 C01*/
 /* key and value are separated by whitespace and a colon; members by whitespace and a comma; only whitespace before the closing brace */
 __CPROVER_ensures((RET && g_nit_calls >= 1 && g_k > __CPROVER_old(input_buffer->offset) && g_k < g_pvl[0].s) ==> input_buffer->content[g_k] <= 32) /*@C02 C03*/
 __CPROVER_ensures((RET && g_nit_calls >= 1 && g_k >= g_pvl[0].e && g_k < g_pvl[1].s) ==> (input_buffer->content[g_k] <= 32 || input_buffer->content[g_k] == ':')) /*@C02 C03*/
@@ -126,12 +127,12 @@ __CPROVER_ensures((RET && g_nit_calls >= 1) ==> g_pvl[1].s > g_pvl[0].e) /*@C03*
 __CPROVER_ensures((RET && g_nit_calls >= 2 && g_k >= g_pvl[1].e && g_k < g_pvl[2].s) ==> (input_buffer->content[g_k] <= 32 || input_buffer->content[g_k] == ',')) /*@C02 C03*/
 __CPROVER_ensures((RET && g_nit_calls >= 2) ==> g_pvl[2].s > g_pvl[1].e) /*@C03*/
 __CPROVER_ensures((RET && g_nit_calls >= 2 && g_k >= g_pvl[2].e && g_k < g_pvl[3].s) ==> (input_buffer->content[g_k] <= 32 || input_buffer->content[g_k] == ':')) /*@C02 C03*/
-__CPROVER_ensures((RET && g_nit_calls >= 1 && g_nit_calls <= 2 && g_k >= g_pvl[2 * g_nit_calls - 1].e && g_k + 1 < input_buffer->offset) ==> input_buffer->content[g_k] <= 32) /*@C02 C03*/
-__CPROVER_ensures((RET && g_nit_calls == 0 && g_k > __CPROVER_old(input_buffer->offset) && g_k + 1 < input_buffer->offset) ==> input_buffer->content[g_k] <= 32) /*@C02 C03*/
+__CPROVER_ensures((RET && g_nit_calls >= 1 && g_nit_calls <= 3 && g_k >= g_pvl[2 * g_nit_calls - 1].e && g_k < input_buffer->offset - 1) ==> input_buffer->content[g_k] <= 32) /*@C02 C03*/
+__CPROVER_ensures((RET && g_nit_calls == 0 && g_k > __CPROVER_old(input_buffer->offset) && g_k < input_buffer->offset - 1) ==> input_buffer->content[g_k] <= 32) /*@C02 C03*/
 __CPROVER_ensures(RET ==> g_del_calls == 0) /*@C07*/
 __CPROVER_ensures((!RET && g_nit_calls >= 1) ==> (g_del_calls == 1 && g_del_arg == g_n0)) /*@C03 C07 C08*/
 __CPROVER_ensures((!RET && g_nit_calls == 0) ==> g_del_calls == 0) /*@C07*/
-__CPROVER_ensures(RET ==> (g_live == NULL || g_live == (void*)g_n0 || g_live == (void*)g_n1)) /*@C08*/
+__CPROVER_ensures(RET ==> (g_live == NULL || g_live == (void*)g_n0 || g_live == (void*)g_n1 || g_live == (void*)g_n2)) /*@C08*/
 __CPROVER_assigns(PARSE_ASSIGNS(item, input_buffer), GHOST_CONT, GHOST_DEL);
 #endif
 
